@@ -6,6 +6,7 @@ void runGenerations(const Opts&, long, CaseLog&);
 void runResidue(const Opts&, long, CaseLog&);
 void runC12Api(const Opts&, long, CaseLog&);
 void runFaults(const Opts&, long, CaseLog&);
+void runDamage(const Opts&, long, CaseLog&);
 void runPlainSave(const Opts&, long, CaseLog&);
 int modeMain(const Opts& o) {
     if (o.mode == "hist") return runCases(o, runHistCase);
@@ -14,6 +15,7 @@ int modeMain(const Opts& o) {
     if (o.mode == "residue") return runCases(o, runResidue);
     if (o.mode == "c12api") return runCases(o, runC12Api);
     if (o.mode == "faults") return runCases(o, runFaults);
+    if (o.mode == "damage") return runCases(o, runDamage);
     if (o.mode == "plainsave") return runCases(o, runPlainSave);
     fprintf(stderr, "unknown mode %s\n", o.mode.c_str());
     return 2;
